@@ -34,6 +34,7 @@ type Obligation struct {
 type Ctx struct {
 	Prop        string
 	Tier        string
+	Deep        bool // thorough tier's second pass: deeper exploration parameters
 	P           *Program
 	Obs         []Obligation
 	Universes   map[string][]string
